@@ -37,11 +37,20 @@ def reach(c, starts, inverse):
     return seen
 
 
-def traversal_problems(c, mode, starts, inverse, topsort_unvisited):
+def traversal_problems(c, mode, starts, inverse, topsort_unvisited, nosy=False):
+    """nosy: the enter hook *reads* the state of every neighbour of the gate it is given (the mapping is handed to
+    hooks to be read; a hook counting visited users/operands does exactly that)."""
     events = []
+
+    def on_enter(g, st):
+        events.append(("enter", g.label))
+        if nosy:
+            for x in list(g.operands) + list(c.get_gate_users(g.label)):
+                st[x]  # noqa: B018 - a read
+
     kw = dict(
         inverse=inverse,
-        on_enter_hook=lambda g, st: events.append(("enter", g.label)),
+        on_enter_hook=on_enter,
         on_discover_hook=lambda g, st: events.append(("discover", g.label)),
         unvisited_hook=lambda g, st: events.append(("unvisited", g.label)),
         on_traversal_end_hook=lambda st: events.append(("end", dict(st))),
@@ -158,16 +167,16 @@ def check_circuit(p, name, c, rnd, exhaustive_starts, build_src=None):
     for starts in start_sets:
         for mode in ("dfs", "bfs"):
             for inverse in (False, True):
-                for tsu in (False, True):
-                    p.case(("trav", circ.snapshot(c)[:3], mode, tuple(starts) if starts is not None else None, inverse, tsu))
+                for tsu, nosy in ((False, False), (True, False), (True, True), (False, True)):
+                    p.case(("trav", circ.snapshot(c)[:3], mode, tuple(starts) if starts is not None else None, inverse, tsu, nosy))
                     try:
-                        probs = traversal_problems(c, mode, starts, inverse, tsu)
+                        probs = traversal_problems(c, mode, starts, inverse, tsu, nosy)
                     except Exception as e:  # noqa: BLE001
                         probs = [f"raised {type(e).__name__}: {e}"]
                     if probs:
-                        p.violation(f"traverse:{mode}:{'inverse' if inverse else 'forward'}:{probs[0].split(' ')[0]}",
-                                    f"{mode}(start={starts}, inverse={inverse}, topsort_unvisited={tsu}) on {circ.describe(c)}: {probs[:2]}",
-                                    src_for(c, build_src) + f"try:\n    bad=traversal_problems(c, {mode!r}, {starts!r}, {inverse!r}, {tsu!r})\nexcept Exception as e:\n    bad=[repr(e)]\nprint(bad); sys.exit(1 if bad else 0)\n")
+                        p.violation(f"traverse:{mode}:{'inverse' if inverse else 'forward'}:{probs[0].split(' ')[0]}{':hook-reads-states' if nosy else ''}",
+                                    f"{mode}(start={starts}, inverse={inverse}, topsort_unvisited={tsu}{', enter hook reads the states of the neighbours' if nosy else ''}) on {circ.describe(c)}: {probs[:2]}",
+                                    src_for(c, build_src) + f"try:\n    bad=traversal_problems(c, {mode!r}, {starts!r}, {inverse!r}, {tsu!r}, {nosy!r})\nexcept Exception as e:\n    bad=[repr(e)]\nprint(bad); sys.exit(1 if bad else 0)\n")
                         return
 
 
